@@ -120,10 +120,10 @@ theorem unaryTrace_ok {σ : Type} (L : LimEnv ε) (site : Site) (t : Trans σ ε
     (st : σ) (c : Stream ε ρ) (childTrace : Nat → List (Handed ε ρ)) (d : Nat)
     (ih : ∀ d', allOk (c.take d') = true → ∀ x ∈ childTrace d', Item.isOk x.item = true)
     (h : allOk ((guard L site (t.run st c)).take d) = true) :
-    ∀ x ∈ unaryTrace L site t st c childTrace d, Item.isOk x.item = true := by
+    ∀ x ∈ unaryTrace L site t st c childTrace 0 d, Item.isOk x.item = true := by
   obtain ⟨h1, h2⟩ := unary_pulled_ok L site t hf st c d h
   intro x hx
-  simp only [unaryTrace, List.mem_append] at hx
+  simp only [unaryTrace, List.mem_append, Nat.max_zero] at hx
   rcases hx with (hx | hx) | hx
   · exact (handed_ok_iff true _).2 h1 x hx
   · exact (handed_ok_iff false _).2 h2 x hx
@@ -139,7 +139,7 @@ theorem joinItem_isOk (S : Sem χ ρ ν ε κ α) (l : ρ) (x : Except ε ρ) :
 theorem trace_ok (S : Sem χ ρ ν ε κ α) (Q : Quirks) (hq : Q.forwardsErr) (L : LimEnv ε)
     (p : Plan χ ρ ε α) : ∀ (site : Site) (env : ρ) (d : Nat),
     allOk ((runL S Q L site env p).take d) = true →
-    ∀ x ∈ trace S Q L site env p d, Item.isOk x.item = true := by
+    ∀ x ∈ trace false S Q L site env p d, Item.isOk x.item = true := by
   obtain ⟨hq1, hq2, hq3, hq4, hq5⟩ := hq
   induction p with
   | source items => intro site env d h; exact leafTrace_ok L site items d h
